@@ -12,6 +12,9 @@ func init() {
 		}
 		site := &HarnessCfg{Name: "VerifC15_LoadSite", Pkg: repoMod + "/pkg/diff", Solver: "z3", EngineReplay: true,
 			Params: map[string]int64{"entries": 1, "maxlen": params["maxlen"]}, Unwind: 64}
+		if c.Tier == "thorough" {
+			site.Params["entries"] = 2
+		}
 		scan := &HarnessCfg{Name: "VerifC15_ScanLoadSite", Pkg: repoMod + "/internal/cli", Solver: "z3", EngineReplay: true,
 			Params: map[string]int64{"maxlen": params["maxlen"]}, Unwind: 64}
 		c.Assumptions = append(c.Assumptions,
